@@ -160,15 +160,28 @@ func (t *Tracker) Sync(layout []lsm.VerifTableInfo, flushed bool) {
 				}
 			}
 		}
+		goneSeq := map[string]int{}
+		for k, sq := range maxSeq {
+			goneSeq[k] = sq
+		}
 		for _, ti := range added {
 			for _, tb := range t.tabs {
 				if tb.level == ti.Level && !tb.ingest {
+					// an ingest merge may fold main-run tables of the level into its outputs
 					for k, sq := range tb.seq {
 						if _, ok := present[k]; !ok {
 							present[k] = false
 						}
 						if sq > maxSeq[k] {
 							maxSeq[k] = sq
+						}
+						if tb.poisoned[k] {
+							poisoned[k] = true
+						}
+						if gs, ok := goneSeq[k]; ok && sq > gs {
+							// the main run holds a NEWER copy than the ingest inputs (partial-drain
+							// inversion, listed): the merge prefers the ingest copy
+							poisoned[k] = true
 						}
 					}
 				}
@@ -301,4 +314,21 @@ func (t *Tracker) Tainted(k string) bool {
 		}
 	}
 	return false
+}
+
+// Describe lists what the tracker believes about base key k (debugging aid, VERIF_TRACE).
+func (t *Tracker) Describe(k string) string {
+	out := fmt.Sprintf("newest=%d writes=%d mem=%v memMaybe=%v unknown=%v;", t.newest[k], t.writes[k], t.mem[k], t.memMaybe[k], t.Unknown)
+	var fids []uint64
+	for fid := range t.tabs {
+		fids = append(fids, fid)
+	}
+	sort.Slice(fids, func(i, j int) bool { return fids[i] < fids[j] })
+	for _, fid := range fids {
+		tb := t.tabs[fid]
+		if sure, ok := tb.keys[k]; ok {
+			out += fmt.Sprintf(" fid=%d L%d ingest=%v sure=%v seq=%d poisoned=%v;", fid, tb.level, tb.ingest, sure, tb.seq[k], tb.poisoned[k])
+		}
+	}
+	return out
 }
